@@ -249,8 +249,8 @@ def run(ctx: Ctx):
     cases = pool.build_pool(ctx, scale=1)
     # two-fault documents are all taken (the order of the error list is what they are for); the rest is
     # a balanced seeded selection
-    double = [c for c in cases if c["origin"] == "validator2"]
-    chosen = double + select([c for c in cases if c["origin"] != "validator2"],
+    double = [c for c in cases if c["origin"] in ("validator2", "attributes-core")]
+    chosen = double + select([c for c in cases if c["origin"] not in ("validator2", "attributes-core")],
                              2400 if thorough else 200, ctx.seed)
     jobs = [("doc", c, ver) for c in chosen for ver in ("1.0", "1.1")]
     jobs += [("doc", c, "1.1") for c in pool.inheritable_cases(ctx, 3 if thorough else 9)]
